@@ -1,6 +1,7 @@
 package props
 
 import (
+	"strings"
 	"encoding/json"
 	"fmt"
 
@@ -27,7 +28,7 @@ func init() {
 		block: 8,
 		assumptions: []string{
 			"choices and cases are nodes for the purpose of pruning; the merged top-level view of the ModelSet is recomputed from the surviving module children",
-			"opd: extension nodes need vendor extensions that are not part of this repository's compile entry point and are not generated (IsOpd is exercised as a predicate that no node satisfies)",
+			"operational command nodes (opd:command / opd:option / opd:argument) stand in a module of their own in every second set; the reference prunes them with the same predicate",
 		},
 		minEvents: []string{"unfiltered_compilations", "filtered_compilations", "dumps_compared", "nodes_pruned_in_reference", "default_case_filtered_away"},
 	}})
@@ -48,6 +49,11 @@ var c20Filters = []c20Filter{
 	{"Exclude(IsState)", compile.Exclude(compile.IsState)},
 	{"IncludeState(true)", compile.IncludeState(true)},
 	{"IncludeState(false)", compile.IncludeState(false)},
+	{"Exclude(IsOpd)", compile.Exclude(compile.IsOpd)},
+	{"Exclude(IsConfig)", compile.Exclude(compile.IsConfig)},
+	{"Include(IsConfig,IsState)", compile.Include(compile.IsConfig, compile.IsState)},
+	{"Include(IsConfig,IncludeState(true))", compile.Include(compile.IsConfig, compile.IncludeState(true))},
+	{"Include(IsOpd,IsState)", compile.Include(compile.IsOpd, compile.IsState)},
 }
 
 func (p *c20) NumCases(tier string, seed int64) int { return tierN(tier, 1000, 40000) }
@@ -72,6 +78,14 @@ func c20Gen(seed int64, idx int) *yang.ModSet {
 		yang.S("container", "c20-mixed", yang.S("leaf", "cfg", yang.S("type", "string")), yang.S("leaf", "st", yang.S("type", "string"), yang.S("config", "false")),
 			yang.S("choice", "mixch", yang.S("leaf", "m1", yang.S("type", "string"), yang.S("config", "false")), yang.S("leaf", "m2", yang.S("type", "string")))),
 	)
+	if idx%2 == 1 {
+		// operational command nodes (the third kind of node the filters tell apart)
+		ms.Mods = append(ms.Mods, yang.S("module", "c20-opd", yang.S("namespace", "urn:verif:c20-opd"), yang.S("prefix", "co"),
+			yang.S("container", "c20-sys", yang.S("leaf", "host", yang.S("type", "string")), yang.S("leaf", "up", yang.S("type", "uint32"), yang.S("config", "false"))),
+			yang.S("opd:command", "c20-show",
+				yang.S("opd:option", "detail", yang.S("type", "string")),
+				yang.S("opd:command", "thing", yang.S("opd:argument", "name", yang.S("type", "string"))))))
+	}
 	return ms
 }
 
@@ -87,8 +101,12 @@ func c20Prune(d *dump.DNode, f compile.SchemaFilter, removed, kept *int) *dump.D
 			continue
 		}
 		if k.Ref != nil && f != nil {
-			switch k.Kind {
-			case "container", "list", "leaf", "leaf-list", "choice", "case":
+			kind := k.Kind
+			if strings.HasPrefix(kind, "other(*schema.opd") {
+				kind = "opd" // operational command / option / argument nodes
+			}
+			switch kind {
+			case "container", "list", "leaf", "leaf-list", "choice", "case", "opd":
 				if !f(k.Ref) {
 					*removed += k.Count()
 					continue
